@@ -13,6 +13,11 @@ E2  every transition of the cover configuration's state graph is replayed in the
 E3  ... and every recorded step (action, thread, returned value, state_, object in obj_, number of
     live payload objects, lifetime errors) is validated by TLC (AsyncReqTrace.tla), invariants on.
 E4  random controlled schedules (uniform and PCT) of random programs, all three builds/payloads.
+E5  free-running rounds (drv_asyncreq --stress): 1..3 consumers and 1..3 producers hammer one fresh
+    AsyncRequest per round truly concurrently, hook points inert, so the interleavings INSIDE a step of
+    the specification occur (a CAS split into load + store is invisible to E2-E4).  One record per
+    round (what every call returned, per thread in program order, + state at quiescence), judged by
+    TLC with AsyncReqObs.tla: fresh, at most once, never lost, only when requested, hand-over order.
 """
 import os
 import shutil
@@ -100,7 +105,25 @@ def run(ctx):
     if usable(tr):
         ctx.validate(SPEC, 'AsyncReqTrace.tla', 'AsyncReqTrace.cfg', tr, WHAT, executions=execs,
                      label='cover replay + random (3 builds)', timeout=1800)
+    # E5: free-running rounds, real threads, no controller: the windows BETWEEN two hook points --------------
+    rounds = 120000 if thorough else 8000
+    parts, execs = [], 0
+    for name, exe, payload in builds:
+        tr = os.path.join(ctx.work, 'stress_%s.ndjson' % name)
+        tot, _ = ctx.driver(exe, ['--out', tr, '--stress', rounds, '--seed', ctx.seed, '--payload', payload], WHAT,
+                            label='free-running rounds ' + name, allow_incomplete=True, timeout=900)
+        parts.append(tr)
+        execs += tot.get('executions', 0)
+    tr = cat(os.path.join(ctx.work, 'stress_all.ndjson'), parts)
+    if usable(tr):
+        ctx.validate(SPEC, 'AsyncReqObs.tla', 'AsyncReqObs.cfg', tr, WHAT, executions=execs,
+                     label='free-running rounds (3 builds): fresh, at most once, never lost, requested, ordered',
+                     timeout=1800)
+    ctx.cov['free_running_rounds'] = execs
     ctx.assumptions += [
+        'free-running rounds (E5) observe only what the public API returned to each thread (in program order) plus '
+        'state_, one draining getUpdate() and the live payload count once every thread is done; no order between '
+        'operations of different threads is assumed; a round that does not end within 10 s is recorded as stuck',
         'TLA+ interleaving semantics are sequentially consistent (weak-memory effects are C10)',
         'each access to the non-atomic obj_ (emplace / move-out) is one indivisible step; the invariant '
         'SlotExclusive shows that no two such accesses are ever concurrently enabled, which justifies it',
